@@ -475,6 +475,75 @@ fn frame_faults(d: &DmgImage, f: &FrameInfo) -> Vec<(Patch, serde_json::Value)> 
     v
 }
 
+/// The reduced per-frame fault menu used for PAIRS of faults in two different frames: each other
+/// frame type, checksum field zeroed, first payload byte inverted, whole payload zeroed, and (when
+/// the image holds no frame-shaped payload: that combination is D7's) the length field set to 0 /
+/// to the rest of the block.
+fn reduced_frame_faults(d: &DmgImage, f: &FrameInfo) -> Vec<(Patch, String)> {
+    let bytes = &d.image[&f.file];
+    let mut v: Vec<(Patch, String)> = vec![];
+    let t = bytes[f.offset + 6];
+    for nt in 1u8..=4 {
+        if nt != t {
+            v.push((vec![(f.file.clone(), f.offset + 6, vec![nt])], format!("type {}->{} @{}+{}", t, nt, f.file, f.offset)));
+        }
+    }
+    v.push((vec![(f.file.clone(), f.offset, vec![0u8; 4])], format!("crc zeroed @{}+{}", f.file, f.offset)));
+    if f.len > 7 {
+        v.push((vec![(f.file.clone(), f.offset + 7, vec![!bytes[f.offset + 7]])], format!("first payload byte inverted @{}+{}", f.file, f.offset)));
+        v.push((vec![(f.file.clone(), f.offset + 7, vec![0u8; f.len - 7])], format!("payload zeroed @{}+{}", f.file, f.offset)));
+    }
+    if d.emb_frames.is_empty() {
+        v.push((vec![(f.file.clone(), f.offset + 4, vec![0u8, 0u8])], format!("length 0 @{}+{}", f.file, f.offset)));
+        let rest = (BLOCK - f.offset % BLOCK - 7) as u16;
+        v.push((vec![(f.file.clone(), f.offset + 4, rest.to_le_bytes().to_vec())], format!("length {} (rest of block) @{}+{}", rest, f.file, f.offset)));
+    }
+    v
+}
+
+/// C08, second part: two faults in two different frames (`reach`: how many following frames are
+/// paired with each frame).
+pub fn c08_pairs_leaf(env: &mut Env, leaf: &Leaf, reach: usize) {
+    let Some(d) = build_image(env, leaf) else {
+        env.stats.diverged += 1;
+        return;
+    };
+    env.stats.traces += 1;
+    let dir = env.scratch2.path.clone();
+    let menus: Vec<Vec<(Patch, String)>> = d.frames.iter().map(|f| reduced_frame_faults(&d, f)).collect();
+    for i in 0..d.frames.len() {
+        for j in i + 1..d.frames.len().min(i + 1 + reach) {
+            for (pa, da) in &menus[i] {
+                for (pb, db) in &menus[j] {
+                    let mut patch = pa.clone();
+                    patch.extend(pb.iter().cloned());
+                    let Some(img) = apply_patch(&d.image, &patch) else { continue };
+                    env.stats.evaluations += 1;
+                    env.stats.transitions += 1;
+                    env.stats.count("fault_pairs", 1);
+                    let (res, _) = open_image(&dir, &img, TICK_BUDGET);
+                    if let Opened::Ok(obs) = res {
+                        env.stats.outcome("open-ok");
+                        env.stats.nontrivial(&(hash_of(&obs), i, j));
+                        if let Err((q, p, b, why)) = genuine(&d, &obs) {
+                            let descr = json!({"kind": "fault-pair", "first": da, "second": db, "patch": patch.iter().map(|(f, o, b)| json!({"file": f, "offset": o, "bytes": b})).collect::<Vec<_>>()});
+                            env.stats.violation(Violation {
+                                property: "C08".into(),
+                                signature: format!("phantom-record-{}", why),
+                                what: format!("after the two faults [{}] and [{}]: queue {} returns position {} with a {}-byte payload {} ({})", da, db, q, p, b.len(), hex(&b[..b.len().min(12)]), why),
+                                case: case_json(leaf, descr),
+                            });
+                            return;
+                        }
+                    } else {
+                        env.stats.outcome("open-err-or-other");
+                    }
+                }
+            }
+        }
+    }
+}
+
 pub fn c09_leaf(env: &mut Env, leaf: &Leaf) {
     let Some(d) = build_image(env, leaf) else {
         env.stats.diverged += 1;
